@@ -174,14 +174,13 @@ Record variant := {
   v_sid_guard : bool;     (* id 0 is never handed out                                           (731c2cc) *)
   v_reserve : bool;       (* an allocated id stays reserved until it is indexed                 (46cb3dc) *)
   v_guard_remove : bool;  (* removeFromIndexes deletes an entry only if it points to the session (9893c59) *)
-  v_ha_check : bool       (* restoreFromHASync refuses a synced session whose id is 0 or in use
-                             (proposed: fixes/C04_hasync_id_in_use.patch) *)
+  v_ha_check : bool       (* restoreFromHASync refuses a synced session whose id is 0 or in use (9d39845) *)
 }.
 (* the historical variants are taken WITH the HA check: they concern the other operations *)
 Definition mkv a b c d :=
   {| v_owner_check := a; v_sid_guard := b; v_reserve := c; v_guard_remove := d; v_ha_check := true |}.
-Definition Repaired : variant := mkv true true true true.
-Definition NoHACheck : variant :=                                 (* /repo HEAD until the HA patch is applied *)
+Definition Repaired : variant := mkv true true true true.        (* /repo HEAD *)
+Definition NoHACheck : variant :=                                 (* before 9d39845 *)
   {| v_owner_check := true; v_sid_guard := true; v_reserve := true; v_guard_remove := true; v_ha_check := false |}.
 Definition Unreserved : variant := mkv true true false false.    (* before 46cb3dc and 9893c59 *)
 Definition ReserveOnly : variant := mkv true true true false.    (* before 9893c59 *)
